@@ -1,5 +1,6 @@
 import UtlsVerif.Line
 import UtlsVerif.Grease
+import UtlsVerif.GreaseReapply
 namespace Drv.C04
 open Wire Grease Line
 
@@ -70,7 +71,95 @@ def greaseQuic (c : Case) : Verdict :=
         else .ok tag
   | _, _, _, _, _, _, _, _, _ => .bad "grease_quic: bad output"
 
+/-! ### grease_reapply — one spec object applied `n` times (two-step build on one connection, one spec
+shared by several connections, literal GREASE values in the spec) -/
+
+/-- what step `j` reported: the 10 GREASE bytes, the seed words, state values, wire values. -/
+structure Step where
+  n10 : Nat
+  gb : Bytes
+  seeds : List Nat
+  st : HelloGrease
+  wire : HelloGrease
+
+def parseStep (o : KV) (j : Nat) : Option Step := do
+  let f (k : String) := o.nats s!"{k}{j}"
+  pure { n10 := (← o.nat s!"n10_{j}"), gb := (← o.bytes s!"gb{j}"), seeds := (← f "seeds"),
+         st := ⟨← f "ciphers", ← f "groups", ← f "shares", ← f "vers", ← f "gext"⟩,
+         wire := ⟨← f "wc", ← f "wg", ← f "wk", ← f "wv", ← f "we"⟩ }
+
+def greaseOf (xs : List Nat) : List Nat := xs.filter isGrease
+
+/-- the property's per-hello clauses on one hello's values (state or wire). -/
+def helloClause (h : HelloGrease) : Option String :=
+  let shaped := (h.ciphers ++ h.groups ++ h.shares ++ h.versions).all fun v =>
+    ¬ (v % 16 = 10 ∧ v / 256 % 16 = 10 ∧ v % 256 / 16 = v / 4096) || isGrease v
+  if h.exts.any (fun v => ¬ isGrease v) then some "grease-extension-id-not-0x?A?A"
+  else if h.exts.length = 2 ∧ h.exts.getD 0 0 = h.exts.getD 1 0 then some "two-grease-extensions-same-code-point"
+  else if greaseOf h.groups ≠ [] ∧ greaseOf h.shares ≠ [] ∧
+      ((greaseOf h.groups ++ greaseOf h.shares).any fun g => some g ≠ (greaseOf h.groups).head?) then
+    some "key_share-grease-group-differs-from-supported_groups"
+  else if ¬ shaped then some "malformed-grease"
+  else none
+
+/-- freshness across the applications of one spec object: when this connection's seed word gives another
+value than the previous connection's, the GREASE values of that class must not be the previous hello's
+(a value that survives in the shared spec object no longer varies across connections). -/
+def staleClause (prev cur : HelloGrease) (ps cs : Seeds) : Option String :=
+  let stale (a c : List Nat) (p q : Nat) : Bool :=
+    boring p ≠ boring q && greaseOf c ≠ [] && greaseOf c == greaseOf a && (greaseOf c).all (· ≠ boring q)
+  if stale prev.groups cur.groups ps.group cs.group then some "supported_groups-grease-kept-from-the-previous-application-of-the-spec"
+  else if stale prev.shares cur.shares ps.group cs.group then some "key_share-grease-kept-from-the-previous-application-of-the-spec"
+  else if stale prev.ciphers cur.ciphers ps.cipher cs.cipher then some "cipher-grease-kept-from-the-previous-application-of-the-spec"
+  else if stale prev.versions cur.versions ps.version cs.version then some "version-grease-kept-from-the-previous-application-of-the-spec"
+  else if prev.exts.length = cur.exts.length ∧ cur.exts ≠ [] ∧ prev.exts = cur.exts ∧
+      cur.exts ≠ (List.range cur.exts.length).map (extValue cs) then
+    some "extension-grease-kept-from-the-previous-application-of-the-spec"
+  else none
+
+def showHello (h : HelloGrease) : String :=
+  s!"ciphers={natsStr h.ciphers} groups={natsStr h.groups} shares={natsStr h.shares} vers={natsStr h.versions} gext={natsStr h.exts}"
+
+def greaseReapply (c : Case) : Verdict :=
+  let o := c.output
+  if o.get "out" = some "nospec" then .ok "nospec" else
+  match o.nat "n", o.nat "next", o.nats "sciphers", o.nats "sgroups", o.nats "sshares", o.nats "svers" with
+  | some n, some next, some sc, some sg, some ss, some sv =>
+    match (List.range n).mapM (parseStep o) with
+    | none => .bad "grease_reapply: bad step"
+    | some steps =>
+      let spec : SpecLists := ⟨sc, sg, ss, sv⟩
+      let anyG (xs : List Nat) := xs.any isGrease
+      let lit := (sc ++ sg ++ ss ++ sv).any fun v => isGrease v && v ≠ 0x0a0a
+      let raws := steps.map fun st => seedsOfBytes st.gb
+      let distinct := (raws.map fun r => boring r.group).eraseDups.length
+      let tag := s!"{c.input.getD "mode" "?"},n={n},gext={next},{if anyG sc then "c" else ""}{if anyG sg then "g" else ""}{if anyG ss then "k" else ""}{if anyG sv then "v" else ""}{if lit then ",lit" else ""},groupseeds={if distinct > 1 then "differ" else "same"}"
+      -- monitors on the implementation's values: every hello, state and wire
+      let perHello := steps.findSome? fun st => (helloClause st.wire).orElse fun _ => helloClause st.st
+      match perHello with
+      | some cl => .propFail tag cl
+      | none =>
+        let pairs := (steps.zip raws).zip ((steps.zip raws).drop 1)
+        let stale := pairs.findSome? fun ((p, pr), (q, qr)) =>
+          (staleClause p.wire q.wire (dedup pr) (dedup qr)).orElse fun _ => staleClause p.st q.st (dedup pr) (dedup qr)
+        match stale with
+        | some cl => .propFail tag cl
+        | none =>
+          -- correspondence: the in-place chain of the model, step by step
+          let model := applySpecAll next raws spec
+          let bad := (steps.zip ((model.zip raws))).findSome? fun (st, (m, r)) =>
+            if st.n10 ≠ 1 then some "exactly-one-10-byte-read-per-application-expected"
+            else if st.seeds ≠ seedsList (dedup r) then some s!"seeds={natsStr (seedsList (dedup r))}"
+            else if st.st ≠ m then some (showHello m)
+            else if st.wire ≠ m then some ("wire:" ++ showHello m)
+            else none
+          match bad with
+          | some msg => .diff tag msg
+          | none => if model.length = steps.length then .ok tag else .diff tag "length"
+  | _, _, _, _, _, _ =>
+    if o.get "out" = some "err" then .diff "err" s!"no-error-expected:{o.getD "msg" "?"}" else .bad "grease_reapply: bad output"
+
 /-- families served by this module (collected by the generated `DrvAll`). -/
-def families : List (String × (Case → Verdict)) := [("grease_val", greaseVal), ("grease_hello", greaseHello), ("grease_quic", greaseQuic)]
+def families : List (String × (Case → Verdict)) := [("grease_val", greaseVal), ("grease_hello", greaseHello), ("grease_reapply", greaseReapply), ("grease_quic", greaseQuic)]
 
 end Drv.C04
